@@ -300,7 +300,9 @@ reg("C17", harness="c17_window", level="exploration", deadline=(300, 1800), extr
                "process_dict/reset_dict stream, round-trips through isal_inflate_set_dict and zlib, each x hist_bits {default, 9, 12} assigned before or "
                "after the dictionary call; dictionaries installed MID-STREAM after a completed SYNC/FULL flush (8 first-part lengths incl. 65535/65536/"
                "65537 x 3 dictionary lengths x both routes): the rest of the stream decoded with the dictionary as its only history must be the rest "
-               "of the input with no match in front of the dictionary; wrong-state calls are refused with the context image unchanged.",
+               "of the input with no match in front of the dictionary; window-edge family: period-2^w noise with a marker at the cut and two windows back "
+               "(hash entry aliasing to distance exactly 2^w, real history byte different), history = earlier call or dictionary, w in {9,10,12,14,15}: "
+               "the result must decode within a 2^w window; wrong-state calls are refused with the context image unchanged.",
     level_note="inputs beyond the designed families are not covered; h8k/lht builds are run in the thorough tier; trusted: ref_inflate distance accounting.",
     runs={"quick": [dict(flavour="sim", part="window"), dict(flavour="sim", part="dict")],
           "thorough": [dict(flavour="sim", part="window"), dict(flavour="sim", part="dict"), dict(flavour="h8k", part="window"), dict(flavour="lht", part="window")]},
